@@ -633,7 +633,7 @@ class Model(core.BfsModel):
                                  tuple(repr(L(t.get_hash())) for t in p.tree.unchained))
                                 for k, p in ov.identity_manager.pseudonyms.items())
             own = (tuple(L(t.get_hash()) for t in ov.token_chain), tuple(L(m.get_hash()) for m in ov.metadata_chain),
-                   tuple(sorted((kn(p.public_key.key_to_bin()), i) for p, i in ov.permissions.items())))
+                   tuple(sorted((kn(p.public_key.key_to_bin()), _perm(i, L)) for p, i in ov.permissions.items())))
             addrs = tuple(w.addrname.get(tuple(w.peer_of(n, o).address), "?") for o in NODES if o != n)
             c = w.consent[n]
             ref = (
@@ -739,6 +739,16 @@ def configs(ctx: core.Ctx) -> list[tuple[Model, int]]:
         (Model("channel", channel, s), 5),
         (Model("full", full, s), 3),
     ]
+
+
+def _perm(value, label):  # noqa: ANN001, ANN202
+    """Canonical form of one `permissions` entry whatever the tree stores there (an index, or the opened tokens)."""
+    if isinstance(value, (int, float, str, bytes, type(None))):
+        return value
+    try:
+        return tuple(repr(label(t.get_hash())) if hasattr(t, "get_hash") else type(t).__name__ for t in value)
+    except TypeError:
+        return type(value).__name__
 
 
 def _self_check(model: Model, histories: list) -> None:
